@@ -636,6 +636,11 @@ def judge_qf(qf, fn, params, ret):
     if bad:
         return dict(what="free symbols that are not the caller's argument bits", symbols=bad,
                     expressions=[[s, str(bexp.from_json(e))] for s, e in exps])
+    missing = [r for r in qf.returns.bitvec if r not in [s for s, _ in exps] and r not in arg_bits]
+    if missing or len(qf.returns.bitvec) != tbits(ret):
+        return dict(what="the return bits are not defined by the expressions", missing=missing,
+                    returns=list(qf.returns.bitvec),
+                    expressions=[[s, str(bexp.from_json(e))] for s, e in exps])
     if len(arg_bits) != sum(tbits(t) for _, t in params):
         return dict(what="argument bits differ from the declared shape", bits=arg_bits)
     for bits, want in table_of_python(fn, params, ret):
@@ -1001,8 +1006,8 @@ def run(ctx: Ctx) -> Result:
     sysc = systematic_cases()
     check_cases(ctx, res, sysc, "sys")
     ctx.log(f"[C07] systematic {len(sysc)} cases {time.time() - t0:.1f}s")
-    n_rand = 1500 if ctx.thorough else 150
-    n_syn = 3000 if ctx.thorough else 300
+    n_rand = 5000 if ctx.thorough else 150
+    n_syn = 8000 if ctx.thorough else 300
     budget = 600 if ctx.thorough else 45
     done = 0
     while done < n_rand and time.time() - t0 < budget:
